@@ -10,17 +10,25 @@ key exactly when they are equal, so a Hash finds a key iff it contains an equal 
 neither merge distinct values nor keep equal ones apart (NaN and Sensitive excepted).
 
 Model: `Pcore/Model/ValueEq.lean` — `veq` (the `Equals` methods), `key`/`kb` (`px.ToKey` byte for byte), `hashGet`,
-`unique`; Timespan (compared and keyed by whole seconds) and Timestamp values; types as values for Any Undef String Integer Float Enum Array Variant Tuple Optional Type (`tyEq`, `tyKey`).
+`unique`; Timespan (compared and keyed by whole seconds) and Timestamp values; types as values for Any Undef String Integer Float Enum Array Variant Tuple Optional Type (`tyEq`, `tyKey`);
+URI, SemVer, SemVerRange (`Model/ValueEqVer.lean`: `semver.NewVersion3`, `Version.Equals/ToString`, `VersionRange.Equals/ToNormalizedString`),
+TypedName, Deferred, Parameter (no hash key: `key = none`, i.e. `INVALID_MAP_KEY`).
 The model has no hidden state at all: `Equals`/`ToKey` are functions of the value; that the implementation agrees with
 them before and after forcing its caches is what the correspondence run checks.
 
 `Comparable x` (`cmp`): integers are int64, floats are 64 bits and not NaN, no Sensitive anywhere (the two exceptions
-the property states), a Tuple type has at most 2^63-1 members, and every Hash is a well-formed map (no two entries indexed
-under the same key bytes).
+the property states), a Tuple type has at most 2^63-1 members, every Hash is a well-formed map (no two entries indexed
+under the same key bytes), a SemVer is one `NewVersion3` can return (`verOk`), and the value HAS a hash key (no TypedName,
+Deferred or Parameter in it).  `EqComparable x` (`ecmp`) is the same without the last demand.
 
 Full statement / proved / missing
 * `C07_refl`, `C07_symm`, `C07_trans` — **proved** for all comparable values, every nesting, cross-kind Array/HashEntry
   pairs and types included.  `C07_symm` is the "whichever operand receives the call" clause: `veq x y` is `x.Equals(y)`.
+* `C07_refl_all`, `C07_symm_all`, `C07_trans_all` — **proved** for all `EqComparable` values: the same three laws for the
+  values that have an `Equals` but no hash key (TypedName, Deferred, Parameter, and everything that contains one).
+* `C07_verStr_injective`, `C07_normStr_injective`, `C07_parseInt_intStr`, `C07_newVersion3_ok`, `C07_semver_key_iff`,
+  `C07_range_key_iff` — **proved**: what makes SemVer and SemVerRange values `Comparable` (their keys are injective prints).
+  `C07_range_original_repaired`: the former witnesses of finding C07-semver-range-original-key (found in this slice, /repo 2f932dc).
 * `C07_key_inj` — **proved**: equal keys ⇒ equal values (nothing distinct is ever merged), for all comparable `x y`
   outside the raw-string class (`TopSafe`).
 * `C07_key_iff_topsafe` — **proved**: `key x = key y ↔ veq x y` for all comparable values under `TopSafe x y`, the one
@@ -43,9 +51,10 @@ Full statement / proved / missing
   (`Generated/KeyTable.lean`: the `HkXxx` constants and the leading bytes each `ToKey` writes): they are the bytes the
   model writes, and the eleven kinds have pairwise distinct two-byte heads.  A change of a prefix byte in the code breaks
   this obligation.
-* missing: value kinds and types outside the model (SemVer, SemVerRange, URI, objects; String types
+* missing: object instances and the types outside the model (String types
   with a size or value, Struct, Hash, Pattern, Object, Callable … types): no theorem, only the harness predicate where
-  generated.  Hidden state: by correspondence only (see above).
+  generated.  The range grammar (`ParseVersionRange`) and `net/url` are outside the model (an op states what the string parses
+  to, checked on every run).  Hidden state: by correspondence only (see above).
 -/
 namespace Pcore.ValueEq
 
